@@ -52,6 +52,10 @@ CLAIMS = {
   text="(A) TLC explores all histories of constructor calls (59 documented spellings / normalisations, length <= 3) in the implementation-shaped FormulaManager model (node table keyed by content, caches keyed by Python value equality) and checks OneObjectPerStructure, AccessorFidelity, TableInjective, CachesAgree. (B/C) TLC-enumerated (all singles, ordered pairs) and TLC-simulated (length 7) call histories are replayed in fresh Environments interleaved with unrelated constructions; identity classes and accessor read-back after every call are validated by TLC against the denotations of FMCalls.tla. normalize() into a second environment is validated for structural identity, no shared FNode objects, membership in the target manager.",
   note="FMCalls.tla denotations are the documented spellings/normalisations; array-value assignment order (by object address) is abstracted by key-sorting",
   tech=TECH + "design model checking of the hash-consing state machine + TLC-generated call histories replayed on FormulaManager, identity/read-back validated by TLC", ref="DESIGN.md 3 C04"),
+ "C20": dict(
+  text="(A) TLC model-checks the implementation-shaped DagWalker machine (explicit stack, memo, expand/compute phases, failure path, one-shot memo) for every rooted DAG shape (4 nodes quick / 5 thorough, fan-out <= 2): VisitOnce, PushBound, ChildrenFirst, FailureTransparent and termination (liveness under weak fairness); the pre-fix configuration must yield the known counterexample (vacuity guard). (B/C) the same shapes, instantiated with every nestable operator family, are fed to the real walkers whose per-instance function tables are wrapped from outside; TLC validates every logged callback sequence (each node at most K times, children first, only and all reachable nodes). Scaling families beyond TLC's reach (20,000-deep chains, 2^60-tree diamonds) are run through construction, simplify, substitute, oracles, get_logic, rewriters, DAG printing and re-parsing and validated for success and callbacks <= K * distinct nodes.",
+  note="the absolute nesting depth reached is an observation on the interpreter; the algorithmic claims (visit-once, no per-level recursion) are model-checked and trace-validated. Parser work is measured by consumed text (it has no walker).",
+  tech=TECH + "design model checking of the walker machine over all DAG shapes + trace validation of real callback sequences and scaling runs", ref="DESIGN.md 3 C20"),
 }
 NA_REASON = "check under construction in this round (planned with the same TLA+/TLC technique, see DESIGN.md)"
 
